@@ -4,7 +4,7 @@ CHECKS = {
         text='Deduplicator lets exactly one message per key through per window: proved for ALL windows, thread populations and schedules of a '
              'thread-level transition system of the map repository (Lock / lookup / insert now+window / Unlock; clean-up ticks, sweeps; clock oracle) '
              'by refinement to a timed-set specification; first-of-epoch-wins, same-key cause of every duplicate, retention for the window, '
-             're-acceptance after a sweep past the expiry for arbitrary schedules and, in the closed system with a timely ticker/cleaner (period p, latency d), re-acceptance within w + p + 3d (two windows for p = w/2, d <= w/6); middleware calls and decorator batches as client programs of the concurrent system (delivered iff the repository step answered new); middleware/decorator outcomes; hasher read-limit laws (SHA-256 separation under a named '
+             're-acceptance after a sweep past the expiry for arbitrary schedules and, in the closed system with a timely ticker/cleaner (period p, latency d), re-acceptance within w + p + 3d (two windows for p = w/2, d <= w/6); time-lock freedom of that closed system (time can pass any bound from every reachable state); middleware calls and decorator batches as client programs of the concurrent system (delivered iff the repository step answered new), end to end over the timely repository; duplicates inside one batch acked and dropped; middleware/decorator outcomes; hasher read-limit laws (SHA-256 separation under a named '
              'injectivity hypothesis). Tied to deduplicator.go on every run by schedule replay of the stamped hook log, outcome comparison and the same monitor.',
         note='for arbitrary schedules re-acceptance is relative to a sweep having run; the bound needs the stated timely-environment assumptions (urgency of the cleaner cycle); SHA-256 injectivity is assumed; real-time bounds checked with slack',
         technique='Coq 8.16.1 proof about a hand-written executable model + correspondence check (hook-log schedule replay, scripted collaborators, stdlib-digest oracle tables)',
